@@ -696,65 +696,84 @@ func ruleCountCheck(r *Run) {
 			if resps == nil || resps.Referrers() == nil {
 				continue
 			}
-			// positional uses: a range over it or an index into it
-			var uses []ssa.Instruction
-			for _, ref := range *resps.Referrers() {
-				switch x := ref.(type) {
-				case *ssa.IndexAddr, *ssa.Index, *ssa.Range:
-					uses = append(uses, x)
+			// positional uses (a range over it, an index into it) here, or in a function of the
+			// module the list is handed to (`q.placeResponses(results, indexes, resps)`): the
+			// comparison has to stand in front of them in the function that uses the list
+			type useSite struct {
+				in   *ssa.Function
+				list ssa.Value
+				uses []ssa.Instruction
+			}
+			var sites []useSite
+			var collect func(in *ssa.Function, list ssa.Value, depth int)
+			collect = func(in *ssa.Function, list ssa.Value, depth int) {
+				if list.Referrers() == nil || depth > 2 {
+					return
+				}
+				us := useSite{in: in, list: list}
+				for _, ref := range *list.Referrers() {
+					switch x := ref.(type) {
+					case *ssa.IndexAddr, *ssa.Index, *ssa.Range:
+						us.uses = append(us.uses, x)
+					case ssa.CallInstruction:
+						callee := x.Common().StaticCallee()
+						if callee == nil || !inModule(callee) || callee.Blocks == nil {
+							continue
+						}
+						for ai, a := range x.Common().Args {
+							if a == list && ai < len(callee.Params) {
+								collect(callee, callee.Params[ai], depth+1)
+							}
+						}
+					}
+				}
+				if len(us.uses) > 0 {
+					sites = append(sites, us)
 				}
 			}
-			if len(uses) == 0 {
-				continue
-			}
-			m++
-			var eqSide *ssa.BasicBlock
-			for _, i2 := range allInstrs(fn) {
-				iff, ok := i2.(*ssa.If)
-				if !ok {
-					continue
-				}
-				bo, ok := iff.Cond.(*ssa.BinOp)
-				if !ok || (bo.Op != token.EQL && bo.Op != token.NEQ) {
-					continue
-				}
-				lenOfResps := func(v ssa.Value) bool {
-					c, ok := v.(*ssa.Call)
+			collect(fn, resps, 0)
+			for _, us := range sites {
+				m++
+				var eqSide *ssa.BasicBlock
+				for _, i2 := range allInstrs(us.in) {
+					iff, ok := i2.(*ssa.If)
 					if !ok {
-						return false
+						continue
 					}
-					b, ok := c.Call.Value.(*ssa.Builtin)
-					return ok && b.Name() == "len" && unwrap(c.Call.Args[0]) == resps
-				}
-				lenOfOther := func(v ssa.Value) bool {
-					c, ok := v.(*ssa.Call)
-					if !ok {
-						return false
+					bo, ok := iff.Cond.(*ssa.BinOp)
+					if !ok || (bo.Op != token.EQL && bo.Op != token.NEQ) {
+						continue
 					}
-					b, ok := c.Call.Value.(*ssa.Builtin)
-					return ok && b.Name() == "len" && unwrap(c.Call.Args[0]) != resps
-				}
-				if (lenOfResps(bo.X) && lenOfOther(bo.Y)) || (lenOfResps(bo.Y) && lenOfOther(bo.X)) {
-					if bo.Op == token.NEQ {
-						eqSide = iff.Block().Succs[1]
-					} else {
-						eqSide = iff.Block().Succs[0]
+					lenOfList := func(v ssa.Value, same bool) bool {
+						c, ok := v.(*ssa.Call)
+						if !ok {
+							return false
+						}
+						b, ok := c.Call.Value.(*ssa.Builtin)
+						return ok && b.Name() == "len" && (unwrap(c.Call.Args[0]) == us.list) == same
+					}
+					if (lenOfList(bo.X, true) && lenOfList(bo.Y, false)) || (lenOfList(bo.Y, true) && lenOfList(bo.X, false)) {
+						if bo.Op == token.NEQ {
+							eqSide = iff.Block().Succs[1]
+						} else {
+							eqSide = iff.Block().Succs[0]
+						}
 					}
 				}
+				good := eqSide != nil && len(eqSide.Preds) == 1
+				at := call.Pos()
+				if good {
+					for _, u := range us.uses {
+						if !(eqSide == u.Block() || eqSide.Dominates(u.Block())) {
+							good = false
+							at = u.Pos()
+						}
+					}
+				}
+				r.Check(good, rule, fnName(us.in), "decoded answers consumed after count check", r.P.pos(at),
+					"every positional use of the decoded answer list is dominated by a comparison of its length with the number of requests sent",
+					"the answer list a service sent back is ranged or indexed without its length having been compared with the number of requests sent: a short (or long) answer is placed silently — the result list handed to the executor is preallocated to the number of requests, so the executor's own count check cannot see it, and a step's fields vanish from the data without an error")
 			}
-			good := eqSide != nil && len(eqSide.Preds) == 1
-			at := call.Pos()
-			if good {
-				for _, u := range uses {
-					if !(eqSide == u.Block() || eqSide.Dominates(u.Block())) {
-						good = false
-						at = u.Pos()
-					}
-				}
-			}
-			r.Check(good, rule, fnName(fn), "decoded answers consumed after count check", r.P.pos(at),
-				"every positional use of the decoded answer list is dominated by a comparison of its length with the number of requests sent",
-				"the answer list a service sent back is ranged or indexed without its length having been compared with the number of requests sent: a short (or long) answer is placed silently — the result list handed to the executor is preallocated to the number of requests, so the executor's own count check cannot see it, and a step's fields vanish from the data without an error")
 		}
 	}
 	r.AtLeast(rule, "decoded answer lists consumed positionally in the queryer", m, 1)
